@@ -342,7 +342,9 @@ def parse_cbmc_json(path):
 def run_job(job, specdir, keep_dir):
     r = JobResult(job)
     t0 = time.time()
-    scratch = tempfile.mkdtemp(prefix="vchk-", dir=os.environ.get("VERIF_TMP", "/tmp"))
+    base = os.path.join(os.environ.get("VERIF_TMP", "/tmp"), ".vscratch", str(os.getpid()))
+    os.makedirs(base, exist_ok=True)
+    scratch = tempfile.mkdtemp(prefix="job-", dir=base)
     r.scratch = scratch
     try:
         gb, cmds = job_build(job, specdir, scratch)
@@ -366,6 +368,13 @@ def run_job(job, specdir, keep_dir):
             r.props.append({"id": p["property"], "desc": p.get("description", ""), "status": p["status"],
                             "file": loc.get("file", ""), "line": loc.get("line", ""),
                             "function": loc.get("function", "")})
+        nb = [p for p in r.props if p["desc"].startswith("no body for callee") and p["status"] == "FAILURE"]
+        if nb:
+            raise Undecided("harness incomplete: %s (stub it explicitly)" % nb[0]["desc"])
+        if any(p["status"] == "FAILURE" and not is_canary(p) for p in r.props):
+            # CBMC reports UNKNOWN for checks on a path on which an earlier check already failed: they are not
+            # obligations of this run (the failure itself is reported)
+            r.props = [p for p in r.props if p["status"] != "UNKNOWN"]
         bad = [p for p in r.props if p["status"] not in ("SUCCESS", "FAILURE")]
         if bad:
             raise Undecided("cbmc reported status %s for %s" % (bad[0]["status"], bad[0]["id"]))
@@ -531,8 +540,11 @@ def match_known(known, prop_id, job, p):
             continue
         if k.get("job") and not re.fullmatch(k["job"], job.name):
             continue
-        if k.get("obligation") and k["obligation"] not in p["desc"]:
-            continue
+        ob = k.get("obligation")
+        if ob:
+            obs = ob if isinstance(ob, list) else [ob]
+            if not any(o in p["desc"] for o in obs):
+                continue
         return k
     return None
 
@@ -679,6 +691,8 @@ def check(prop_id, spec, tier, specdir):
     for r in results:
         if r and r.scratch and not os.environ.get("VERIF_KEEP"):
             shutil.rmtree(r.scratch, ignore_errors=True)
+    if not os.environ.get("VERIF_KEEP"):
+        shutil.rmtree(os.path.join(os.environ.get("VERIF_TMP", "/tmp"), ".vscratch", str(os.getpid())), ignore_errors=True)
     print("%s tier=%s jobs=%d obligations=%d discharged=%d known=%d violations=%d undecided=%d wall=%.0fs" % (
         prop_id, tier, len(jobs), obligations, discharged, len(known_hits), len(violations), len(undecided),
         time.time() - t0))
